@@ -9,7 +9,7 @@ EXPLANATION = (
     "Static analysis over rustc's promoted MIR (control dependence via edge-dominance). Decided: inputs are enqueued for propagation only when "
     "their fingerprint changed (set_input/update/refresh); dirty propagation does not continue through firewall/projection callers; a recomputed "
     "firewall/projection spreads dirtiness and schedules backward projection only when its fingerprint changed; the in-lock double check returns "
-    "without work when the node is already verified at the caller's epoch; repair re-executes only on Recompute or backward-projection propagation; "
+    "without work when the node is already verified at the caller's epoch; repair re-executes only on a Recompute decision - a backward-projection propagation is verified (pedantically), not forced, and the pending-projection marker is tested for presence only at both sites (protocol since D19); "
     "an edge that is not dirty is skipped unless the repair is pedantic or the node is a projection; the executor has exactly two call sites and "
     "refresh is the only one outside execute_query. Minimality per invocation over all histories is NOT decided.")
 
